@@ -190,6 +190,9 @@ func plReport(res *ev.Result, e *sched.Explorer, prop string) {
 	res.Extra["divergent_schedules"] = e.Stats.Divergent
 	res.Extra["replay_retries"] = e.Stats.Retries
 	res.Extra["step_capped"] = e.Stats.StepCapped
+	if len(e.Stats.DivergeMsgs) > 0 {
+		res.Extra["divergence_examples"] = e.Stats.DivergeMsgs
+	}
 	heavy := map[string]int64{}
 	for k, v := range e.Stats.PerScenario {
 		if !strings.HasPrefix(k, "script:") {
